@@ -169,7 +169,7 @@ fn manifest(w: &World, sh: &Shape, n: usize) -> Option<TransactionManifestV1> {
                     function: PUPPET_RUN.into(),
                     args: args_of(&Script(vec![])),
                 }]),
-                2 if sh.via_method => Script(vec![Op::CallMethod {
+                2 if sh.via_method => Script(vec![import_refs(&[*g.as_node_id(), *w.puppet_q.as_node_id()]), Op::CallMethod {
                     receiver: N::Lit(*g.as_node_id()),
                     method: PUPPET_PEEK.into(),
                     args: args_of(&Script(vec![Op::CallFunction {
@@ -643,7 +643,8 @@ fn bytes_case(g: &mut Gen) -> Outcome {
     with_world("c49", no_genesis, build, |w| {
         let floor = if heap { w.ext::<Ext>().heap_floor } else { w.ext::<Ext>().track_floor };
         // room for payloads of up to a few thousand bytes per object above what the transaction itself needs
-        let l = floor + objects * 16 + g.below(6000) as usize;
+        // (the floor was measured with one small object; further objects cost a few hundred bytes each)
+        let l = floor + objects * 600 + g.below(6000) as usize;
         let wrong = |e: &TransactionLimitsError| -> bool {
             !matches!((heap, e), (true, TransactionLimitsError::HeapSubstateSizeExceeded { .. }) | (false, TransactionLimitsError::TrackSubstateSizeExceeded { .. }))
         };
@@ -676,7 +677,8 @@ fn bytes_case(g: &mut Gen) -> Outcome {
         }
         let plain = ByteShape { churn: 1, ..bs };
         // bisection for the largest accepted n (sizes 130..140 and the like have gaps: stay on Vec<u8> shapes)
-        let (mut lo, mut hi) = (8usize, 8 + (l - floor) / objects + 64);
+        // a payload as large as the limit itself cannot fit
+        let (mut lo, mut hi) = (8usize, if heap { l } else { l.min(l - floor + 3000) });
         if !p!(&plain, lo, l) {
             return Outcome::fail(format!("harness: C49 {} floor does not admit the smallest payload", name), trace.join("; "));
         }
@@ -702,7 +704,7 @@ fn bytes_case(g: &mut Gen) -> Outcome {
         // shift: `objects` payloads of n bytes each: moving the limit by objects*D moves the threshold by D
         let d = {
             let mag = 1 + g.below(200) as i64;
-            if g.bool() && (t as i64 - mag) > 16 && l as i64 - (objects as i64 * mag) >= floor as i64 {
+            if g.bool() && (t as i64 - mag) > 16 && l as i64 - (objects as i64 * mag) >= (floor + objects * 600) as i64 {
                 -mag
             } else {
                 mag
@@ -735,7 +737,7 @@ pub fn check() -> Check {
     .assume("protocol defaults of value size (2 MiB), payload size (1 MiB) and heap/track totals (64 MiB) are not reached: a carrier invocation that large is itself over the 1 MiB payload limit; those limits are exercised with small overrides only")
     .assume("heap/track byte totals: shift-by-D, monotonicity and churn invariance only (the absolute accounting contains envelope bytes the harness does not model)")
     .assume("the event-count limit is judged on events emitted during execution; fee events appended at finalization are not counted by the engine and not by the check")
-    .part(Part::new("threshold", 2500, 100_000, 64, threshold_case))
-    .part(Part::new("bytes", 500, 20_000, 64, bytes_case))
+    .part(Part::new("threshold", 1600, 100_000, 64, threshold_case))
+    .part(Part::new("bytes", 400, 20_000, 64, bytes_case))
     .min_nontrivial_pct(50.0)
 }
